@@ -167,10 +167,15 @@ def tests():
             export(d)
             apply(d, muts[r['id']])
             env = dict(os.environ, CARGO_TARGET_DIR=tgt, CARGO_NET_OFFLINE='true', CARGO_BUILD_JOBS='4')
+            import signal
+            pr = subprocess.Popen('cargo test --offline --no-fail-fast 2>&1 | grep -E "^test result|FAILED|panicked" | head -8', shell=True, cwd=d, env=env,
+                                  stdout=subprocess.PIPE, text=True, start_new_session=True)
             try:
-                p = subprocess.run('cargo test --offline --no-fail-fast 2>&1 | grep -E "^test result|FAILED|panicked" | head -8', shell=True, cwd=d, env=env, stdout=subprocess.PIPE, text=True, timeout=2400)
-                out = p.stdout.strip().splitlines()
+                out = pr.communicate(timeout=1500)[0].strip().splitlines()
             except subprocess.TimeoutExpired:
+                # a mutant that no longer terminates: kill the whole process group (the test binary, not only the shell)
+                os.killpg(pr.pid, signal.SIGKILL)
+                pr.communicate()
                 out = ['TIMEOUT']
             green = len([l for l in out if l.startswith('test result: ok')]) >= 3 and not any('FAILED' in l or 'TIMEOUT' in l for l in out)
             rec = dict(r, tests_green=green, tests=out[:4])
